@@ -79,7 +79,9 @@ def run(ctx):
         cls_w, rules_w = G.build(P, gr)   # one build per grammar: caches stay warm across sources/offsets
         cases = cases[:20] + [(s[1:], max(0, i - 1)) for s, i in cases[:6] if len(s) > 1] + [("zz" + s, i + 2) for s, i in cases[:6]]
         for s, i in cases:
-            bad = tree_failures(P, gr, s, i, rules=rules_w)
+            bad = ec.with_budget(ec.CASE_BUDGET_S, lambda: tree_failures(P, gr, s, i, rules=rules_w), None)
+            if bad is None:
+                break     # slow grammar (work bound: C12 / F14): skip the rest of its cases
             checked += 1
             if bad and rep < 3:
                 found = True
